@@ -299,5 +299,12 @@ Definition forward (om : option matcher) (u : upstream) (scheme : str) (q : req)
                           end |}]
     end.
 
+(* a request read from an intercepted (MITM) TLS session: proxyConn.handle forces
+   req.URL.Scheme = "https"; the scheme the credential lookup sees is the forced one only
+   when that happens before the request modifiers (Tables.mitm_https_before_modifiers),
+   otherwise it is what the client claimed (request line / X-Forwarded-Proto) *)
+Definition mitm_lookup_scheme (claimed : str) : str :=
+  if mitm_https_before_modifiers then b "https" else claimed.
+
 Definition has_field (k : str) (h : hmap) : bool :=
   existsb (fun kv => eq_fold (fst kv) k) h.
